@@ -66,26 +66,36 @@ theorem parseRectsN_ser (c : PCtx) (rs : List Rect)
 theorem parseRectsUntilLast_ser (c : PCtx) (rs : List Rect) (last : Rect)
     (hwf : ∀ r ∈ rs, RectWF c r ∧ r.hdr.enc ≠ rfbEncodingLastRect)
     (hl : RectWF c last) (hle : last.hdr.enc = rfbEncodingLastRect) (rest : Bytes) :
-    ∀ fuel, rs.length + 1 ≤ fuel →
+    ∀ fuel, rs.length < fuel →
       parseRectsUntilLast c fuel (serRects (rs ++ [last]) ++ rest) = some (rs ++ [last], rest) := by
   induction rs with
   | nil =>
     intro fuel hf
-    match fuel, hf with
-    | f + 1, _ =>
-      simp only [List.nil_append, parseRectsUntilLast, serRects, List.flatMap_cons, List.flatMap_nil,
-        List.append_nil]
+    cases fuel with
+    | zero => omega
+    | succ f =>
+      have e : serRects ([] ++ [last]) = serRect last := by simp [serRects]
+      rw [e]
+      rw [parseRectsUntilLast]
       rw [parseRect_serRect c last hl]
-      simp [hle]
+      simp only []
+      rw [if_pos hle]
+      rfl
   | cons r t ih =>
     intro fuel hf
-    match fuel, hf with
-    | f + 1, hf =>
+    cases fuel with
+    | zero => omega
+    | succ f =>
       have hr := hwf r (by simp)
-      simp only [List.cons_append, parseRectsUntilLast, serRects_cons, List.append_assoc]
+      have e : serRects (r :: t ++ [last]) ++ rest = serRect r ++ (serRects (t ++ [last]) ++ rest) := by
+        simp [serRects]
+      rw [e]
+      rw [parseRectsUntilLast]
       rw [parseRect_serRect c r hr.1]
-      simp only [hr.2, if_false]
+      simp only []
+      rw [if_neg hr.2]
       rw [ih (fun q hq => hwf q (by simp [hq])) f (by simp at hf; omega)]
+      rfl
 
 theorem serRect_length_ge (r : Rect) : 12 ≤ (serRect r).length := by
   simp [serRect, serHdr_length]
@@ -110,7 +120,7 @@ inductive MsgWF (c : PCtx) : ServerMsg → Prop where
       (hlast : RectWF c last) (hle : last.hdr.enc = rfbEncodingLastRect) :
       MsgWF c (.fbu pad nRectsSentinel (rs ++ [last]))
   | colourMap (pad first n : Nat) (d : Bytes) (hp : pad < 256) (hf : first < 65536) (hn : n < 65536)
-      (hd : d.length = n * 6) : MsgWF c (.colourMap pad first n d)
+      (hd : d.length = 6 * n) : MsgWF c (.colourMap pad first n d)
   | bell : MsgWF c .bell
   | cutText (pad : Bytes) (len : Nat) (d : Bytes) (hp : pad.length = 3) (hl : len < 4294967296)
       (hd : d.length = cutTextDataLen len) : MsgWF c (.cutText pad len d)
